@@ -5,7 +5,7 @@
    injected at callback invocations and destructors. *)
 From Coq Require Import ZArith List Bool Lia.
 From MV Require Import Ast Eval Scalar Machine Model Policy.
-From MV.Proofs Require Import Arith Logic Prim View OpsLocal Guards Grow Drops CapHistory Core DrainIt Refine FilterIt.
+From MV.Proofs Require Import Arith Logic Prim View OpsLocal Guards Grow Drops CapHistory Core DrainIt Refine FilterIt Clone Extend CloneSlice.
 Import ListNotations.
 Open Scope Z_scope.
 
@@ -150,3 +150,22 @@ Theorem C04_drain_filter_drop_any_point_any_script :
 Proof. exact filter_drop_spec. Qed.
 
 Print Assumptions C04_drain_filter_drop_any_point_any_script.
+
+(* A Clone implementation that panics (any set of elements whose Clone is scripted to panic), or a
+   refused capacity, while a slice is cloned onto the end of a vector (extend_from_slice, From<&[T]>,
+   IntoIter::clone and resize all go through this loop): after the unwind the vector is valid -- its old
+   contents followed by the clones made so far, each live and held exactly once -- and no element that
+   existed before has been touched. *)
+Theorem C04_clone_panics_leave_the_vector_valid :
+  forall cfg ncap, cfg_ok cfg -> policy_ok ncap -> needs_drop cfg = true ->
+  forall s w l src,
+  vabs cfg s w l -> sources s src ->
+  post (extend_from_slice cfg ncap w src s)
+    (fun _ s' =>
+       vabs cfg s' w (l ++ zseq (next_elem s) (List.length src)) /\
+       next_elem s' = next_elem s + Z.of_nat (List.length src) /\
+       (forall e, e < next_elem s -> ledger s' e = ledger s e))
+    (fun s' => exists k, (k <= List.length src)%nat /\ vabs cfg s' w (l ++ zseq (next_elem s) k) /\
+                         (forall e, e < next_elem s -> ledger s' e = ledger s e)).
+Proof. exact extend_from_slice_any. Qed.
+Print Assumptions C04_clone_panics_leave_the_vector_valid.
